@@ -106,6 +106,11 @@ impl VerifConfig {
         }
     }
 
+    /// The production configuration with these values.
+    pub fn manager_config(self) -> MultiPathManagerConfig {
+        self.to_config()
+    }
+
     /// Result of the production validator `MultiPathManagerConfig::validate`.
     pub fn validate(&self) -> Result<(), String> {
         self.to_config().validate().map_err(|e| e.to_string())
@@ -503,4 +508,10 @@ impl<F: PathFetcher> VerifPathSet<F> {
             .value()
             .to_bits()
     }
+}
+
+/// (issue cache entries, issue FIFO entries) of a manager's `PathIssueManager`.
+pub fn manager_issue_sizes<F: PathFetcher>(mgr: &MultiPathManager<F>) -> (usize, usize) {
+    let g = mgr.0.issue_manager.lock().unwrap();
+    (g.cache.len(), g.fifo_issues.len())
 }
